@@ -36,6 +36,7 @@ type ReqSpec struct {
 type Hist struct {
 	DB    bool
 	NoChk bool // DisableIssuedAtCheck
+	Admin bool // enableAdmin: provisioners migrated into and loaded from the admin database; the super admin "step" exists
 	Toks  []TokSpec
 	Reqs  []ReqSpec
 	Sched []int
@@ -150,6 +151,34 @@ func (e *env) mintTok(ts *TokSpec, jtis map[string]string) *minted {
 		} else {
 			m.idr = "k" + c.X(sha256hex("gcp/gcpt."+inst))
 		}
+	case "awst", "awsr":
+		inst := jti
+		if inst == "" {
+			inst = "i-anon"
+		}
+		delete(claims, "jti")
+		claims["sub"] = inst
+		claims["nbf"], claims["exp"] = now.Add(-time.Minute).Unix(), exp.Unix()
+		m.str = e.awsToken(ts.Prov, inst, claims, ts.Defect == "badsig")
+		switch ts.Defect {
+		case "aud":
+			// re-mint for a provisioner that does not exist: refused at the look-up
+			m.str = e.awsToken("nosuch", inst, claims, false)
+			m.lookupOK = false
+		case "kid":
+			claims["iss"] = "ec2.example.com" // found through the audience fragment, refused by the validation
+			m.str = e.awsToken(ts.Prov, inst, claims, false)
+		}
+		m.valid["sign"] = ts.Defect == "" && (ts.NoIat || ts.IatOff < 3000)
+		// AWS.GetTokenID validates the token before it derives the id: a token its validation refuses has no id (refused before the record)
+		switch {
+		case ts.Defect != "" && ts.Defect != "aud":
+			m.idr = "e"
+		case ts.Prov == "awsr":
+			m.idr = "sha-of-presented"
+		default:
+			m.idr = "k" + c.X(sha256hex("aws/awst."+inst))
+		}
 	case "sshpop":
 		aud := ts.Aud
 		if aud != "sshrenew" && aud != "sshrekey" && aud != "sshrevoke" {
@@ -217,7 +246,9 @@ func (e *env) mintTok(ts *TokSpec, jtis map[string]string) *minted {
 		if ts.Prov == "admintok" {
 			claims["iss"], claims["aud"] = "step-admin-client/1.0", "https://ca.verif.test/admin/admins"
 			m.str = mintHdr(key, "ES256", map[string]any{"x5c": e.chain()}, claims)
-			m.valid["admin"] = false // no admin is configured: refused after the record is stored
+			// without enableAdmin no admin exists: refused after the record is stored; with it the certificate is the super
+			// admin's (SAN "step", issued by the first JWK provisioner): authorized once
+			m.valid["admin"] = e.admin && ts.Defect != "expired" && ts.Defect != "badsig"
 		} else {
 			claims["iss"], claims["aud"] = "step-ca-client/1.0", "https://ca.verif.test/1.0/renew"
 			if ts.Defect == "aud" {
@@ -305,7 +336,7 @@ func (e *env) mintTok(ts *TokSpec, jtis map[string]string) *minted {
 func runHist(h *Hist) (string, string) {
 	n := len(h.Reqs)
 	hooks := &ss.Hooks{}
-	e := newEnv(h.DB, h.NoChk, hooks)
+	e := newEnvAdmin(h.DB, h.NoChk, h.Admin, hooks)
 	defer func() { e.close() }()
 	start0 := e.startSec()
 	base := len(ss.Dump(e.ca.DB, "used_ott")) // the environment's own provisioning token (certificate for x5c tokens)
@@ -596,6 +627,13 @@ func cornerHists() []*Hist {
 			Reqs: []ReqSpec{{0, 0, "sign", false}, {0, 0, "sign", false}, {1, 0, "sign", false}, {2, 0, "sign", false}, {3, 0, "sign", false}, {3, 0, "sign", false},
 				{4, 0, "sign", false}, {5, 0, "sign", false}, {6, 0, "sign", false}, {6, 0, "sign", false}, {7, 0, "sign", false}, {6, 1, "sign", false}},
 			Sched: seqSched(12)})
+		// AWS through Authorize (instance identity documents signed by the harness's own key, iidRoots): with trust on first use one
+		// certificate per instance; without, per token string; a document the signature does not cover has no id and is refused
+		hs = append(hs, &Hist{DB: dbm, Toks: []TokSpec{{Prov: "awst", JTI: "i1"}, {Prov: "awst", JTI: "i1"}, {Prov: "awst", JTI: "i2"}, {Prov: "awsr", JTI: "i1"}, {Prov: "awsr", JTI: "i1"},
+			{Prov: "awst", JTI: "i3", Defect: "badsig"}, {Prov: "awsr", JTI: "i4", Defect: "expired"}},
+			Reqs: []ReqSpec{{0, 0, "sign", false}, {0, 0, "sign", false}, {1, 0, "sign", false}, {2, 0, "sign", false}, {3, 0, "sign", false}, {3, 0, "sign", false}, {4, 0, "sign", false}, {3, 1, "sign", false},
+				{5, 0, "sign", false}, {5, 0, "sign", false}, {6, 0, "sign", false}, {0, 0, "revoke", false}},
+			Sched: seqSched(12)})
 		// renew tokens of certificates issued by each provisioner type, each presented twice: single-use for every issuer (D12d, fixed)
 		hs = append(hs, &Hist{DB: dbm, Toks: []TokSpec{{Prov: "renewtok", JTI: "r", Issuer: "acme"}, {Prov: "renewtok", JTI: "r", Issuer: "k8s"}, {Prov: "renewtok", JTI: "r", Issuer: "azt"},
 			{Prov: "renewtok", JTI: "r", Issuer: "azt"}, {Prov: "renewtok", JTI: "r", Issuer: "azr"}, {Prov: "renewtok", JTI: "r", Issuer: "gcpt"}, {Prov: "renewtok", JTI: "r", Issuer: "gcpr"},
@@ -616,6 +654,15 @@ func cornerHists() []*Hist {
 		hs = append(hs, &Hist{DB: dbm, NoChk: true, Toks: []TokSpec{{Prov: "jwk", JTI: "r", IatOff: 30, Aud: "sign"}},
 			Reqs: []ReqSpec{{0, 0, "sign", false}, {0, 0, "sign", false}}, Sched: []int{0, 0, 0, -1, 1, 1, 1}})
 	}
+	// enableAdmin: the first start migrates the configured provisioners into the admin database and creates the super admin; every kind of
+	// token is single-use through the migrated provisioners, also after the restart that loads them from the database; the admin token of
+	// the super admin is authorized once (without enableAdmin it is recorded and then refused: no admin exists)
+	hs = append(hs, &Hist{DB: true, Admin: true, Toks: []TokSpec{{Prov: "admintok", JTI: "r"}, {Prov: "admintok", JTI: "-"}, good, {Prov: "oidc", JTI: "r"}, {Prov: "k8s", JTI: "r"},
+		{Prov: "sshpop", JTI: "r", Aud: "sshrenew"}, {Prov: "renewtok", JTI: "r"}, {Prov: "jwk2", JTI: "r", Aud: "sign"}},
+		Reqs: []ReqSpec{{0, 0, "admin", false}, {0, 0, "admin", false}, {1, 0, "admin", false}, {1, 1, "admin", false}, {2, 0, "sign", false}, {2, 0, "sign", false}, {3, 0, "sign", false}, {3, 0, "sign", false},
+			{4, 0, "sign", false}, {4, 0, "sign", false}, {5, 0, "sshrenew", false}, {5, 0, "sshrenew", false}, {6, 0, "renewtoken", false}, {6, 0, "renewtoken", false}, {7, 0, "sign", false},
+			{0, 0, "admin", false}, {2, 0, "sign", false}, {7, 0, "sign", false}, {6, 0, "renewtoken", false}},
+		Sched: append(append(seqSched(15), -1), 15, 15, 15, 16, 16, 16, 17, 17, 17, 18, 18, 18)})
 	for _, h := range hs {
 		for i := range h.Reqs {
 			if h.Reqs[i].Method == "signid" {
@@ -646,7 +693,7 @@ func genHist(r *c.Rng) *Hist {
 		case 6, 7:
 			ts.Prov = "sshpop"
 		case 8:
-			ts.Prov = c.Pick(r, []string{"azt", "azr", "gcpt", "gcpr"})
+			ts.Prov = c.Pick(r, []string{"azt", "azr", "gcpt", "gcpr", "awst", "awsr", "awst", "awsr"})
 		}
 		switch r.Intn(8) {
 		case 0, 1:
@@ -740,6 +787,24 @@ func genHist(r *c.Rng) *Hist {
 			h.Sched = append(h.Sched, -1)
 		}
 		i += g
+	}
+	if h.DB && r.Chance(1, 6) {
+		h.Admin = true
+		for i := range h.Toks { // no cloud provisioners in this mode (see env.admin)
+			switch h.Toks[i].Prov {
+			case "azt", "azr", "gcpt", "gcpr", "awst", "awsr":
+				h.Toks[i].Prov = "admintok"
+			}
+			switch h.Toks[i].Issuer {
+			case "azt", "azr", "gcpt", "gcpr":
+				h.Toks[i].Issuer = ""
+			}
+		}
+		for i := range h.Reqs {
+			if h.Toks[h.Reqs[i].Tok].Prov == "admintok" {
+				h.Reqs[i].Method, h.Reqs[i].Skip = "admin", false
+			}
+		}
 	}
 	// make sure every thread ends (threads cut by a restart are "drop", the rest got 3 phases)
 	return h
